@@ -564,7 +564,10 @@ def jis8_table():
             if list(o.encode()) != want:
                 return {"state": "refuted", "reproduced": True, "cex": {"codepoint": cp, "bytes": o.encode().hex()}}
             d = V.JIS8()
-            pos = d.decode(bytes(want))
+            try:
+                pos = d.decode(bytes(want))
+            except Exception as e:
+                return {"state": "refuted", "reproduced": True, "cex": {"codepoint": cp, "decode raised": repr(e)}}
             if pos != 3 or d.get() != ch:
                 return {"state": "refuted", "reproduced": True, "cex": {"codepoint": cp, "decoded": d.get()}}
     for b1 in range(256):
@@ -572,7 +575,10 @@ def jis8_table():
             n += 1
             data = bytes(refe5.header(refe5.J, 2) + [b1, b2])
             d = V.JIS8()
-            pos = d.decode(data)
+            try:
+                pos = d.decode(data)
+            except Exception as e:
+                return {"state": "refuted", "reproduced": True, "cex": {"bytes": data.hex(), "decode raised": repr(e)}}
             if pos != 4 or [ord(c) for c in d.get()] != [ref_dec[b1], ref_dec[b2]] or d.encode() != data:
                 return {"state": "refuted", "reproduced": True, "cex": {"bytes": data.hex()}}
     return {"state": "confirmed", "paths": n, "extra": "exhaustive finite enumeration (not a solver query): 1114112 code points + 65536 byte pairs"}
